@@ -705,6 +705,9 @@ where
                     return Err(RecvError::InvalidIndex(i));
                 }
                 self.v.insert(i, v);
+                if self.v.len() > self.max_size {
+                    return Err(RecvError::MaxSizeExceeded(self.max_size));
+                }
             }
             VecDequeEvent::Set(i, v) => {
                 if i >= self.v.len() {
@@ -731,6 +734,9 @@ where
                 self.v.swap_remove_front(i);
             }
             VecDequeEvent::Resize(l, v) => {
+                if l > self.max_size {
+                    return Err(RecvError::MaxSizeExceeded(self.max_size));
+                }
                 self.v.resize(l, v);
             }
             VecDequeEvent::Truncate(l) => {
@@ -957,11 +963,14 @@ where
         let (dropped_tx, mut dropped_rx) = oneshot::channel();
 
         // Build initial state.
+        let initial = self.take_initial().unwrap_or_default();
+        let error = if initial.len() > max_size { Some(RecvError::MaxSizeExceeded(max_size)) } else { None };
+        let failed = error.is_some();
         let inner = Arc::new(RwLock::new(Some(MirroredVecDequeInner {
-            v: self.take_initial().unwrap_or_default(),
+            v: initial,
             complete: self.is_complete(),
             done: self.is_complete() && self.is_done(),
-            error: None,
+            error,
             max_size,
         })));
         let inner_task = inner.clone();
@@ -970,6 +979,10 @@ where
         let tx_send = tx.clone();
         exec::spawn(
             async move {
+                if failed {
+                    return;
+                }
+
                 loop {
                     let event = tokio::select! {
                         event = self.recv() => event,
